@@ -219,7 +219,7 @@ SPECS["C10"]["imports"] += "\nFrom BB Require Import Facts FactsP."
 
 SPECS["C18"] = dict(
     title="comments, blank lines, spacing and line-ending style do not change the program",
-    imports=STD + "From BB Require Import Ebnf Chars Lexer Syntax Parser Values Eval G4Data EbnfP LexerP LayoutP.",
+    imports=STD + "From BB Require Import Ebnf Chars Lexer Syntax Parser Values Eval Loader G4Data EbnfP LexerP LayoutP SpaceP.",
     items=[
         dict(name="comment_step", comment="a '#' at a token start swallows the rest of the line as ONE skipped token, whatever the line contains (so comments contribute no token)"),
         dict(name="comment_token_skipped"),
@@ -236,11 +236,20 @@ SPECS["C18"] = dict(
         dict(name="rules_avoid_hash"),
         dict(name="rules_avoid_space"),
         dict(name="avoids_sound"),
+        dict(name="space_step", comment="a maximal run of blanks that is not exactly one tab / exactly four spaces is ONE skipped SPACE token; exactly one tab or four spaces is ONE TAB token"),
+        dict(name="tab_step"),
+        dict(name="M_local", comment="matching is local: a derivation depends only on the characters of the segment it covers"),
+        dict(name="blank_run_irrelevant", comment="SPACING: a run of blanks that is a token of its own (not inside a string or comment) can be replaced by any other run of blanks that does not spell a TAB; the visible token stream (rule, text) is unchanged"),
+        dict(name="space_run_irrelevant", comment="... in particular 1-3 spaces by 1-3 spaces"),
+        dict(name="lex_tokens_space_run_irrelevant", comment="... stated for the executable lexer: whenever it answers on both texts, kinds and texts of the tokens agree"),
+        dict(name="final_newline_irrelevant", comment="FINAL NEWLINE: loading a text with or without the final line end gives the same outcome"),
+        dict(name="loads_final_newline"),
+        dict(name="load_final_newline"),
     ],
     examples="(* documented facts proved by computation in LayoutP: tab_equiv_tab / tab_equiv_four_spaces (one TAB token each), spaces_1..3 (skipped),\n"
              "   spaces_8 and tab_tab (eight spaces or two tabs are ONE skipped SPACE token: the equivalence holds for a single indentation unit),\n"
-             "   visible_tokens. NOT proved: the general separation lemma for runs of 1-3 spaces between two arbitrary tokens and the final-newline\n"
-             "   clause at parser level; these clauses are covered by the correspondence only (partial). *)\n")
+             "   visible_tokens; SpaceP: respace_example (\"a  b\" vs \"a b\"), respace_example_tab, respace_in_string (inside a string the hypothesis AND the\n"
+             "   conclusion fail). Not stated: inserting a blank run where there was none (false in general: tokens merge). *)\n")
 
 
 SPECS["C12"] = dict(
@@ -325,6 +334,16 @@ SPECS["C02"]["items"] += [
 ]
 SPECS["C10"]["imports"] += "\nFrom BB Require Import Syntax Parser ParserP."
 SPECS["C10"]["items"].append(dict(name="pscript_sound_lr", comment="whatever the model parser accepts is a sentence of the grammar as written"))
+SPECS["C02"]["imports"] += "\nFrom BB Require Import CompleteP."
+SPECS["C02"]["items"] += [
+    dict(name="pscript_iff", comment="... and ALL of them (CompleteP): the model parser accepts exactly the sentences of blackbird.g4"),
+    dict(name="pscript_complete_ev", comment="acceptance holds for every large enough fuel"),
+]
+SPECS["C10"]["imports"] += "\nFrom BB Require Import CompleteP."
+SPECS["C10"]["items"] += [
+    dict(name="pscript_iff", comment="and it accepts every sentence: a token sequence is refused by the model parser iff the grammar does not derive it"),
+    dict(name="recognise_parses", comment="the executable recogniser and the parser agree on acceptance"),
+]
 SPECS["C01"]["imports"] += "\nFrom BB Require Import Unparse ExprP UnparseP RoundtripP."
 SPECS["C01"]["items"] = [
     dict(name="token_roundtrip_total", comment="TOKEN level, every well-formed program whose strings are quote-free and whose operations have modes: the serialiser is defined, the tokens of the serialised script parse back to that script, and loading it gives an equivalent program"),
